@@ -53,3 +53,187 @@ Theorem C07_committees_partition_unconditional : forall (E : Env) (idx : list N)
                 Permutation (concat comms) idx.
 Proof. exact committees_partition_unconditional. Qed.
 Print Assumptions C07_committees_partition_unconditional.
+
+(* ======================================================================================================
+   zrnt's committee / proposer computation refines the specification.
+   Impl model: Beacon/Impl/Shuffling.v (shuffling.go, proposers.go; the whole-list shuffle is the C06 model
+   Shuffle/ShuffleModel.v with H := Hash E); proofs: Beacon/Refine/ShufflingRefine.v, ProposersRefine.v, C07Theorems.v.
+
+   shuffling_params_ok E n  (n = number of active validators) is the record of exactly these facts:
+     po_rounds  : SHUFFLE_ROUND_COUNT (cfg E) <= 255                     (Go passes uint8(SHUFFLE_ROUND_COUNT))
+     po_bytes   : forall m, bytes_ok (Hash E m)                          (the hash returns bytes < 256)
+     po_size    : n <= 2^40                                              (spec_limit; uint32(position // 256) of the spec)
+     po_spe     : 0 < SLOTS_PER_EPOCH (cfg E)
+     po_tcs     : 0 < TARGET_COMMITTEE_SIZE (cfg E)
+     po_mcps    : 0 < MAX_COMMITTEES_PER_SLOT (cfg E)
+     po_count64 : MAX_COMMITTEES_PER_SLOT * SLOTS_PER_EPOCH < 2^64       (committeeCount is a uint64)
+     po_nowrap  : n * (MAX_COMMITTEES_PER_SLOT * SLOTS_PER_EPOCH) < 2^64 (validatorCount * (index+1) is a uint64 product)
+   proposer_params_ok E st idx  is the record of exactly these facts:
+     pp_rounds  : SHUFFLE_ROUND_COUNT (cfg E) <= 255
+     pp_bytes   : forall m, bytes_ok (Hash E m)
+     pp_size    : length idx <= 2^40
+     pp_active  : every element of idx is < length (validators st)      (active indices are registry indices)
+     pp_max64   : MAX_EFFECTIVE_BALANCE (cfg E) * 255 < 2^64             (MAX_EFFECTIVE_BALANCE * randomByte is a uint64 product)
+     pp_eb64    : every validator's effective_balance * 255 < 2^64       (effectiveBalance * 0xff is a uint64 product)
+   ====================================================================================================== *)
+From Coq Require Import Bool.
+From V Require Import Base.U64 Base.Outcome Beacon.State Beacon.Run Beacon.Impl.Shuffling
+  Beacon.Refine.ShufflingRefine Beacon.Refine.ProposersRefine Beacon.Refine.C07Theorems.
+From V Require Shuffle.ShuffleModel Shuffle.ShuffleArith Shuffle.ShuffleIndexProofs.
+
+(* mirrors LoadBoundedIndices + ActiveIndices (shuffling.go) *)
+Theorem C07_active_indices_refine : forall st epoch,
+  active_indices_impl (load_bounded_indices (validators st)) epoch = get_active_validator_indices st epoch.
+Proof. exact C07T_active_indices_refine. Qed.
+Print Assumptions C07_active_indices_refine.
+
+(* mirrors CommitteeCount (shuffling.go) *)
+Theorem C07_committee_count_refines : forall E st epoch, 0 < MAX_COMMITTEES_PER_SLOT (cfg E) ->
+  committee_count_impl E (N.of_nat (length (get_active_validator_indices st epoch))) =
+  get_committee_count_per_slot E st epoch.
+Proof. exact C07T_committee_count_refines. Qed.
+Print Assumptions C07_committee_count_refines.
+
+(* mirrors the body of NewShufflingEpoch: UnshuffleList of the active indices, then the slice of (slot s, committee ci) *)
+Theorem C07_committee_refines : forall E idx seed,
+  let n := N.of_nat (length idx) in
+  let per_slot := committee_count_impl E n in
+  shuffling_params_ok E n ->
+  forall s ci, s < SLOTS_PER_EPOCH (cfg E) -> ci < per_slot ->
+  exists shuffling comm,
+    ShuffleModel.unshuffle_list (Hash E) seed (ShuffleModel.wrap8 (SHUFFLE_ROUND_COUNT (cfg E))) idx = Ok shuffling /\
+    impl_committee E shuffling per_slot s ci = Ok comm /\
+    compute_committee E idx seed (s * per_slot + ci) (per_slot * SLOTS_PER_EPOCH (cfg E)) = Some comm.
+Proof. exact C07T_committee_refines. Qed.
+Print Assumptions C07_committee_refines.
+
+(* mirrors NewShufflingEpoch (shuffling.go): the whole ShufflingEpoch value; no panic *)
+Theorem C07_new_shuffling_epoch_refines : forall E bounded seed epoch,
+  let idx := active_indices_impl bounded epoch in
+  let n := N.of_nat (length idx) in
+  let per_slot := committee_count_impl E n in
+  shuffling_params_ok E n ->
+  exists she, new_shuffling_epoch E bounded seed epoch = Ok she /\
+    se_epoch she = epoch /\ se_active she = idx /\ Permutation (se_shuffling she) idx /\
+    se_committees she = map (fun s => map (fun ci => spec_committee E idx seed s ci) (seqN 0 (N.to_nat per_slot)))
+                            (seqN 0 (N.to_nat (SLOTS_PER_EPOCH (cfg E)))) /\
+    forall s ci, s < SLOTS_PER_EPOCH (cfg E) -> ci < per_slot ->
+      exists comm, committee_at she s ci = Some comm /\
+                   compute_committee E idx seed (s * per_slot + ci) (per_slot * SLOTS_PER_EPOCH (cfg E)) = Some comm.
+Proof. exact C07T_new_shuffling_epoch_refines. Qed.
+Print Assumptions C07_new_shuffling_epoch_refines.
+
+(* NewShufflingEpoch on the state's registry and attester seed vs get_beacon_committee, for ANY slot
+   (previous, current and next epoch alike) *)
+Theorem C07_beacon_committee_refines : forall E st slot ci,
+  let epoch := compute_epoch_at_slot E slot in
+  let idx := get_active_validator_indices st epoch in
+  let seed := get_seed E st epoch DOMAIN_BEACON_ATTESTER in
+  shuffling_params_ok E (N.of_nat (length idx)) ->
+  ci < get_committee_count_per_slot E st epoch ->
+  exists she comm,
+    new_shuffling_epoch E (load_bounded_indices (validators st)) seed epoch = Ok she /\
+    se_active she = idx /\
+    committee_at she (slot mod SLOTS_PER_EPOCH (cfg E)) ci = Some comm /\
+    get_beacon_committee E st slot ci = Some comm.
+Proof. exact C07T_beacon_committee_refines. Qed.
+Print Assumptions C07_beacon_committee_refines.
+
+(* the Committees table of NewShufflingEpoch = the spec-side table of Run.v (committees_of_epoch: get_beacon_committee
+   for every slot of the epoch and every committee index), as whole values *)
+Theorem C07_committees_of_epoch_refine : forall E st epoch,
+  let idx := get_active_validator_indices st epoch in
+  let seed := get_seed E st epoch DOMAIN_BEACON_ATTESTER in
+  shuffling_params_ok E (N.of_nat (length idx)) ->
+  exists she,
+    new_shuffling_epoch E (load_bounded_indices (validators st)) seed epoch = Ok she /\
+    se_active she = idx /\
+    se_committees she = committees_of_epoch E st epoch.
+Proof. exact C07T_committees_of_epoch_refine. Qed.
+Print Assumptions C07_committees_of_epoch_refine.
+
+(* mirrors ComputeProposerIndex (proposers.go).  PARTIAL in this sense: zrnt examines at most CAP = 1000*32 = 32000
+   candidates and then returns an error, the specification's loop has no cap (the executable Spec gives it fuel 40000).
+   Go returns the spec's proposer exactly when the spec loop finds one within the first 32000 candidates; otherwise Go
+   returns its error (and the theorem says so). *)
+Theorem C07_compute_proposer_index_refines_partial : forall E st idx seed,
+  proposer_params_ok E st idx -> 0 < N.of_nat (length idx) ->
+  match proposer_loop E CAP st idx seed 0 with
+  | Some p => compute_proposer_index_impl E (validators st) idx seed = Ok p /\ compute_proposer_index E st idx seed = Some p
+  | None => compute_proposer_index_impl E (validators st) idx seed = Err
+  end.
+Proof. exact C07T_compute_proposer_index_refines. Qed.
+Print Assumptions C07_compute_proposer_index_refines_partial.
+
+(* mirrors the proposer loop of ComputeProposers (proposers.go): seed_i = hash(epochSeed ++ le8(startSlot + i)).
+   PARTIAL: conditional on every slot's spec loop finding a proposer within the 32000-candidate cap *)
+Theorem C07_compute_proposers_refines_partial : forall E st idx epoch_seed start,
+  proposer_params_ok E st idx -> 0 < N.of_nat (length idx) ->
+  start + SLOTS_PER_EPOCH (cfg E) <= two64 ->
+  (forall i, i < SLOTS_PER_EPOCH (cfg E) ->
+     exists p, proposer_loop E CAP st idx (Hash E (epoch_seed ++ uint_to_bytes 8 (start + i))) 0 = Some p) ->
+  exists ps, compute_proposers_impl E (validators st) idx epoch_seed start = Ok ps /\
+    map Some ps = map (fun i => compute_proposer_index E st idx (Hash E (epoch_seed ++ uint_to_bytes 8 (start + i))))
+                      (seqN 0 (N.to_nat (SLOTS_PER_EPOCH (cfg E)))).
+Proof. exact C07T_compute_proposers_refines. Qed.
+Print Assumptions C07_compute_proposers_refines_partial.
+
+(* the proposers of the current epoch = Run.v's proposer_at (get_beacon_proposer_index at each slot), slot by slot.
+   PARTIAL: same cap condition *)
+Theorem C07_proposers_refine_partial : forall E st,
+  let ce := get_current_epoch E st in
+  let idx := get_active_validator_indices st ce in
+  let start := compute_start_slot_at_epoch E ce in
+  SHUFFLE_ROUND_COUNT (cfg E) <= 255 -> (forall m, ShuffleArith.bytes_ok (Hash E m)) ->
+  0 < N.of_nat (length idx) -> N.of_nat (length idx) <= ShuffleIndexProofs.spec_limit ->
+  MAX_EFFECTIVE_BALANCE (cfg E) * 255 < two64 ->
+  Forall (fun v => v_effective_balance v * 255 < two64) (validators st) ->
+  start + SLOTS_PER_EPOCH (cfg E) <= two64 ->
+  (forall i, i < SLOTS_PER_EPOCH (cfg E) ->
+     exists p, proposer_loop E CAP st idx
+                 (Hash E (get_seed E st ce DOMAIN_BEACON_PROPOSER ++ uint_to_bytes 8 (start + i))) 0 = Some p) ->
+  exists ps, compute_proposers_impl E (validators st) idx (get_seed E st ce DOMAIN_BEACON_PROPOSER) start = Ok ps /\
+    map Some ps = map (fun s => proposer_at E st (start + s)) (seqN 0 (N.to_nat (SLOTS_PER_EPOCH (cfg E)))).
+Proof. exact C07T_proposers_refine. Qed.
+Print Assumptions C07_proposers_refine_partial.
+
+(* non-vacuity: tiny_cfg (8 slots per epoch, target size 4, at most 4 committees per slot, 10 rounds), real SHA-256,
+   72 validators of which 64 are active at epoch 5: the hypotheses hold; NewShufflingEpoch returns 8 x 2 committees of 4,
+   each equal to the spec's compute_committee, and the shuffle is not the identity *)
+Example C07_refinement_nonvacuous :
+  shuffling_params_ok c07_env (N.of_nat (length c07_active)) /\
+  c07_example_check = true /\
+  (exists she, new_shuffling_epoch c07_env (load_bounded_indices c07_validators) c07_seed c07_epoch = Ok she /\
+               firstn 2 (se_committees she) = [[[52; 51; 35; 5]; [48; 3; 68; 18]]; [[12; 62; 11; 47]; [17; 42; 23; 66]]]).
+Proof.
+  split; [exact c07_params_ok|]. split; [vm_compute; reflexivity|].
+  eexists. split; [vm_compute; reflexivity|]. vm_compute. reflexivity.
+Qed.
+
+(* mirrors the sampling loop of ComputeSyncCommitteeIndices (sync_committee.go; the random-byte hash is cached for 32
+   candidates and refreshed at i%32 == 0 -- modelled).  PARTIAL in this sense: the Go loop has no iteration cap, the
+   executable Spec's loop (Beacon/Spec/Epoch.v sync_loop) is fuelled; whenever the Spec loop completes with `fuel`
+   candidates, the Go loop (model, same fuel) returns exactly the same index list. *)
+From V Require Import Beacon.Spec.Epoch Beacon.Refine.SyncCommitteeRefine.
+Theorem C07_sync_committee_indices_refines_partial : forall E st idx seed,
+  proposer_params_ok E st idx -> 0 < N.of_nat (length idx) ->
+  forall fuel l, N.of_nat fuel < two64 ->
+  sync_loop E fuel st idx seed 0 (N.to_nat (SYNC_COMMITTEE_SIZE (cfg E))) = Some l ->
+  compute_sync_committee_indices_impl E fuel (validators st) idx seed = Ok l.
+Proof. exact C07T_sync_committee_indices_refines. Qed.
+Print Assumptions C07_sync_committee_indices_refines_partial.
+
+(* the same against the state: whenever get_next_sync_committee_indices returns, ComputeSyncCommitteeIndices on the next
+   epoch's active set and the DOMAIN_SYNC_COMMITTEE seed returns the same indices *)
+Theorem C07_next_sync_committee_indices_refines_partial : forall E st l,
+  let epoch := get_current_epoch E st + 1 in
+  let active := get_active_validator_indices st epoch in
+  SHUFFLE_ROUND_COUNT (cfg E) <= 255 -> (forall m, ShuffleArith.bytes_ok (Hash E m)) ->
+  N.of_nat (length active) <= ShuffleIndexProofs.spec_limit ->
+  MAX_EFFECTIVE_BALANCE (cfg E) * 255 < two64 ->
+  Forall (fun v => v_effective_balance v * 255 < two64) (validators st) ->
+  get_next_sync_committee_indices E st = Some l ->
+  compute_sync_committee_indices_impl E PROPOSER_FUEL (validators st) active
+    (get_seed E st epoch DOMAIN_SYNC_COMMITTEE) = Ok l.
+Proof. exact C07T_next_sync_committee_indices_refines. Qed.
+Print Assumptions C07_next_sync_committee_indices_refines_partial.
